@@ -83,6 +83,26 @@ Example C09_refuted_no_newline_midfile :
   snd c09_two_pushes = ROk false /\ c09_f c09_two_pushes = Some (b ("Ab" ++ nl)%string).
 Proof. vm_compute. auto. Qed.
 
+(* REFUTED for a second class (known finding dir-and-file): the series uses one path both as a directory and as a
+   file.  p1 empties the directory d, p2 creates a file named d: one push still sees the directory on disk when it
+   loads "d" and stops with an error; after `push 1` the emptied directory is gone and the second push succeeds.
+   (Found while looking for the hypothesis under which a saved tree reads as the overlay, see ViewSim.reload_wsim.) *)
+Definition c09d_p1 := b ("--- a/d/f" ++ nl ++ "+++ /dev/null" ++ nl ++ "@@ -1 +0,0 @@" ++ nl ++ "-x" ++ nl)%string.
+Definition c09d_p2 := b ("--- /dev/null" ++ nl ++ "+++ b/d" ++ nl ++ "@@ -0,0 +1 @@" ++ nl ++ "+now a file" ++ nl)%string.
+Definition c09d_fs : fsys :=
+  {| fs_files := [([b "series"], {| f_data := b ("p1" ++ nl ++ "p2" ++ nl)%string; f_mode := 420 |});
+                  ([b "d"; b "f"], {| f_data := b ("x" ++ nl)%string; f_mode := 420 |})];
+     fs_dirs := [[b "d"]]; fs_log := []; fs_fault := None; fs_fired := false |}.
+Definition c09d_db : patches_db := [(b "p1", c09d_p1); (b "p2", c09d_p2)].
+Definition c09d_one_push := cmd_push c09_cfg c09d_db GAll c09d_fs.
+Definition c09d_two_pushes := let '(fs1, _) := cmd_push c09_cfg c09d_db (GCount 1) c09d_fs in cmd_push c09_cfg c09d_db GAll fs1.
+Definition c09d_d (r : fsys * res bool) := option_map f_data (lookup_file [b "d"] (fs_files (fst r))).
+
+Example C09_refuted_dir_and_file :
+  snd c09d_one_push = RErr ELoadFile /\ c09d_d c09d_one_push = None /\
+  snd c09d_two_pushes = ROk true /\ c09d_d c09d_two_pushes = Some (b ("now a file" ++ nl)%string).
+Proof. vm_compute. auto. Qed.
+
 (* ---------- across invocations ---------- *)
 
 (* [wsim dm fs1 ov1 fs2 ov2]: every (canonical) name is the same thing in both worlds - same lines, same
